@@ -253,7 +253,7 @@ def lu_solve(ctx, n, m):
 
 @scenario('C16', fns=['linalg.lu_factor', 'linalg.matrix_pivot', 'linalg.lu_decomposition', 'linalg.forward_substitution',
                       'linalg.backward_substitution'],
-          quick=_shapes((1, 2), (3,), m=2), thorough=_shapes((1, 2, 3), (4,), m=2))
+          quick=_shapes((1, 2), (3,), m=2), thorough=_shapes((1, 2, 3), (), m=2))   # n >= 4: see `pencil` below
 def lu_factor(ctx, n, signs, m):
     """requires: det(A) != 0, b any n x m
        ensures : the call raises ZeroDivisionError (no result) or returns x with A x = b  (partial pivoting included)"""
@@ -263,7 +263,7 @@ def lu_factor(ctx, n, signs, m):
 
 
 @scenario('C16', fns=['linalg.matrix_inverse', 'linalg.matrix_pivot', 'linalg.lu_solve'],
-          quick=_shapes((1, 2), (3,)), thorough=_shapes((1, 2, 3), (4,)))
+          quick=_shapes((1, 2), (3,)), thorough=_shapes((1, 2, 3), ()))       # n >= 4: see `pencil` below
 def matrix_inverse(ctx, n, signs):
     """requires: det(A) != 0
        ensures : the call raises ZeroDivisionError (no result) or returns A^-1: A A^-1 = I = A^-1 A"""
@@ -282,7 +282,7 @@ def matrix_determinant(ctx, n, signs):
     c_matrix_determinant(ctx, la, A)
 
 
-@scenario('C16', fns=['linalg.matrix_pivot'], quick=_shapes((1, 2, 3), ()), thorough=_shapes((1, 2, 3), (4,)))
+@scenario('C16', fns=['linalg.matrix_pivot'], quick=_shapes((1, 2, 3), ()), thorough=_shapes((1, 2, 3), ()))
 def matrix_pivot(ctx, n, signs):
     """requires: any n x n matrix
        ensures : P is a permutation matrix, the returned matrix is P m, sign = det P"""
@@ -338,6 +338,43 @@ def concrete_matrix(ctx, kind, n):
             c_lu_decomposition(ctx, la, *args)
         else:
             CONTRACT[name](ctx, la, *args)
+
+
+# ------------------------------------------------------------------------------------------------
+# sizes 4 and 5 with symbolic entries: the pivot search runs on the partially eliminated columns, so pinning the signs
+# of the entries of a fully symbolic 4 x 4 matrix no longer pins the order of the pivot candidates (more than 10^4
+# order paths, over the instance deadline).  Instead: matrix pencils A0 + t B1 (+ s B2) with concrete integer A0, B1,
+# B2 and free symbols t, s - every pivot candidate is a rational function of one or two symbols, every order fork is
+# explored, and the row order changes with t (zero, equal and sign-changing candidates included).
+# ------------------------------------------------------------------------------------------------
+PENCILS = {
+    (4, 1): ([[2, -1, 0, 3], [4, 1, -2, 0], [-1, 3, 1, 2], [0, 2, -3, 1]],
+             [[1, 0, 0, 0], [0, 0, 1, 0], [0, -1, 0, 0], [0, 0, 0, 2]], None),
+    (4, 2): ([[0, 1, 2, -1], [1, 0, -1, 2], [3, -2, 0, 1], [-1, 2, 1, 0]],
+             [[1, 0, 0, 0], [1, 0, 0, 0], [0, 0, 0, 0], [0, 0, 1, 0]],
+             [[0, 0, 0, 0], [0, 1, 0, 0], [0, 1, 0, 0], [0, 0, 0, 1]]),
+    (5, 1): ([[2, -4, 5, -6, 0], [3, -6, -2, 1, -6], [-9, 3, 7, -1, -6], [-4, -9, 0, -2, 8], [-1, 3, -2, 3, -9]],
+             [[0, 0, 0, 0, 1], [0, 1, 0, 0, 0], [1, 0, 0, 0, 0], [0, 0, 0, 0, 0], [0, 0, 1, 0, 0]], None),
+}
+
+
+@scenario('C16', fns=['linalg.lu_factor', 'linalg.matrix_inverse', 'linalg.matrix_determinant', 'linalg.matrix_pivot',
+                      'linalg.lu_decomposition', 'linalg.forward_substitution', 'linalg.backward_substitution'],
+          quick=[dict(n=4, k=1, f=f) for f in ('matrix_pivot', 'lu_factor')],
+          thorough=[dict(n=n, k=k, f=f) for (n, k) in sorted(PENCILS)
+                    for f in ('matrix_pivot', 'lu_factor', 'matrix_inverse', 'matrix_determinant')])
+def pencil(ctx, n, k, f):
+    """requires: A = A0 + t B1 (+ s B2), A0, B1, B2 the stated integer matrices, t (and s) any reals with det(A) != 0
+       ensures : the contract of routine f above"""
+    la = ctx.geomdl('linalg')
+    A0, B1, B2 = PENCILS[(n, k)]
+    t = ctx.num('t')
+    s = ctx.num('s') if B2 is not None else None
+    A = [[ctx.lit(A0[i][j]) + t * B1[i][j] + (s * B2[i][j] if B2 is not None else 0) for j in range(n)] for i in range(n)]
+    if f in NEEDS_NONSINGULAR:
+        ctx.assume(ctx.ne(det_leibniz(A), 0))
+    args = [A] + ([[[ctx.num('b%d' % i), ctx.lit(i - 2)] for i in range(n)]] if f == 'lu_factor' else [])
+    CONTRACT[f](ctx, la, *args)
 
 
 # ------------------------------------------------------------------------------------------------
